@@ -51,4 +51,18 @@ theorem sum_set (l : List ℤ) (j : ℕ) (v : ℤ) (hj : j < l.length) :
       have hk : k < t.length := by simpa using hj
       simp [List.set, ih k hk]; ring
 
+/-- mat_power (square-and-multiply): the three identities of the spec power `ipow` used by the loop invariant
+    `power * ipow mat i = ipow m p`, in any commutative monoid (1x1 real matrices are scalars). -/
+theorem ipow_zero {M : Type*} [CommMonoid M] (x : M) : x ^ 0 = 1 := pow_zero x
+
+theorem ipow_even {M : Type*} [CommMonoid M] (x : M) (k : ℕ) : x ^ (2 * k) = (x * x) ^ k := by
+  rw [pow_mul, pow_two]
+
+theorem ipow_odd {M : Type*} [CommMonoid M] (x : M) (k : ℕ) : x ^ (2 * k + 1) = x * (x * x) ^ k := by
+  rw [pow_succ, pow_mul, pow_two, mul_comm]
+
+/-- constant map: the ghost Sum of `n` copies of `v` (dict comprehension over a symbolic group). -/
+theorem sum_replicate_int (n : ℕ) (v : ℤ) : (List.replicate n v).sum = n * v := by
+  simp [List.sum_replicate]
+
 end Spec
